@@ -75,6 +75,33 @@ def render_block(text, exts):
     return kinds, doc, warns
 
 
+def _sphinx_passthrough(ctx):
+    from docutils import nodes
+    from ..sphinx_runner import run_docs
+    fig = "```{figure-md} fig-%s\n<img src=\"fig%s.png\" alt=\"f\">\n\ncaption\n```\n"
+    docs = {"a_before": '<img src="before.png" alt="b">\n\n' + fig % ("a", "a") + '\n<img src="after.png" alt="a">\n\ninline <img src="inl.png" alt="i"> text\n',
+            "b_other": '# Other\n\n<img src="other.png" alt="o">\n',
+            "c_two": fig % ("c1", "c1") + "\n" + fig % ("c2", "c2") + '\n<div class="admonition">\nnot converted\n</div>\n\n<img src="last.png" alt="l">\n'}
+    res = run_docs(ctx.wd / "sx_pass", docs, {}, resolve=True)
+    n = 0
+    for name, text in docs.items():
+        n += 1
+        ctx.count(("sphinx-pass", name))
+        ctx.traces_validated += 1
+        case = {"leg": "R-sphinx", "document": name, "markdown": text, "extensions": []}
+        r = res.get(name)
+        if not r or not r["ok"] or r.get("doctree") is None:
+            ctx.violation(f"Sphinx build failed: {(r or {}).get('error')}", case)
+            continue
+        tree = r["doctree"]
+        imgs = sorted(i.get("uri", "").rsplit("/", 1)[-1] for i in tree.findall(nodes.image))
+        want = sorted(f"fig{k}.png" for k in ("a",) if name == "a_before") + sorted(f"fig{k}.png" for k in ("c1", "c2") if name == "c_two")
+        if imgs != sorted(want):
+            ctx.violation(f"Sphinx, html_image not enabled: image nodes {imgs}, expected only those of the figure-md bodies {sorted(want)} "
+                          "(every other <img> is verbatim HTML)", case)
+    return n
+
+
 def gfm_renderer():
     """a real DocutilsRenderer whose configuration is gfm_only (fallback named by the property)"""
     from docutils.frontend import get_default_settings
@@ -211,11 +238,20 @@ def run(ctx):
                 if got != exp:
                     ctx.violation(f"HTML block with {where}: expected nodes {exp}, observed {got}", case)
     ctx.leg("R-classify", behaviours=nrec)
+    # Sphinx front end: figure-md switches html_image on for its own body only; every other <img> of the project stays
+    # verbatim HTML while the extension is off (Classify with fimg = FALSE), whatever was read before it
+    ns = _sphinx_passthrough(ctx)
+    ctx.leg("R-sphinx", documents=ns)
     # conversion = the directive spelling
     eq = [('<img src="a.png" alt="text" class="c1" width="10px">\n', "```{image} a.png\n:alt: text\n:class: c1\n:width: 10px\n```\n", ["html_image"]),
           ('<div class="admonition tip" name="n1">\n<p class="title">My *title*</p>\nBody **md** and `code`.\n</div>\n',
            "```{admonition} My *title*\n:class: admonition tip\n:name: n1\nBody **md** and `code`.\n```\n", ["html_admonition"]),
-          ('<div class="admonition">\nno title\n</div>\n', "```{admonition} Note\n:class: admonition\nno title\n```\n", ["html_admonition"])]
+          ('<div class="admonition">\nno title\n</div>\n', "```{admonition} Note\n:class: admonition\nno title\n```\n", ["html_admonition"]),
+          # character references are Markdown's to decode, after the conversion: the directive gets them as written
+          ('<div class="admonition">\n<p class="title">T &lt;i&gt; &amp;amp;</p>\nB &#42;x&#42; &amp;lt;b&amp;gt; &copy; end\n</div>\n',
+           "```{admonition} T &lt;i&gt; &amp;amp;\n:class: admonition\nB &#42;x&#42; &amp;lt;b&amp;gt; &copy; end\n```\n", ["html_admonition"]),
+          ('<div class="admonition">\n<p class="title">T &lt;i&gt; and &amp;amp;</p>\nB &#42;x&#42; then &amp;lt;b&amp;gt; and &copy; end\n</div>\n',
+           "```{admonition} T &lt;i&gt; and &amp;amp;\n:class: admonition\nB &#42;x&#42; then &amp;lt;b&amp;gt; and &copy; end\n```\n", ["html_admonition"])]
     for h, dsp, exts in eq:
         k1, d1, _ = render_block(h, exts)
         k2, d2, _ = render_block(dsp, exts)
@@ -224,6 +260,13 @@ def run(ctx):
         p1 = d1.pformat()
         if p1 != d2.pformat():
             import difflib
+            # open finding C17-charref-space: white space that stands alone between two character references is dropped
+            # (Element.strip() removes white-space-only text nodes); recognised when that is the ONLY difference
+            squeeze = lambda t: re.sub(r"(?<=[*;>©]) (?=[&*<©])", "", t)      # noqa: E731
+            if re.search(r"&#?\w+; &#?\w+;", h) and squeeze(p1) == squeeze(d2.pformat()):
+                ctx.violation("HTML form and directive form differ in the white space between two adjacent character references",
+                              {"leg": "R-equivalence", "html": h, "directive": dsp}, finding="C17-charref-space")
+                continue
             diff = "\n".join(list(difflib.unified_diff(d2.pformat().splitlines(), p1.splitlines(), "directive", "html", lineterm="", n=0))[:8])
             ctx.violation(f"HTML form and directive form give different nodes:\n{diff}", {"leg": "R-equivalence", "html": h, "directive": dsp})
 
